@@ -2557,6 +2557,18 @@ func (p *Posix) UploadPartCopy(ctx context.Context, upi *s3.UploadPartCopyInput)
 		return s3response.CopyPartResult{}, fmt.Errorf("stat object: %w", err)
 	}
 
+	if p.versioningEnabled() {
+		// a delete marker keeps the bytes of the deleted object in place:
+		// it must not be readable as a copy source
+		isDelMarker, err := p.isObjDeleteMarker(srcBucket, srcObject)
+		if err != nil {
+			return s3response.CopyPartResult{}, err
+		}
+		if isDelMarker {
+			return s3response.CopyPartResult{}, s3err.GetAPIError(s3err.ErrNoSuchKey)
+		}
+	}
+
 	startOffset, length, err := backend.ParseCopySourceRange(fi.Size(), *upi.CopySourceRange)
 	if err != nil {
 		return s3response.CopyPartResult{}, err
@@ -3960,6 +3972,21 @@ func (p *Posix) CopyObject(ctx context.Context, input s3response.CopyObjectInput
 	}
 	if !strings.HasSuffix(srcObject, "/") && fi.IsDir() {
 		return nil, s3err.GetAPIError(s3err.ErrNoSuchKey)
+	}
+
+	if p.versioningEnabled() {
+		// a delete marker keeps the bytes of the deleted object in place:
+		// it must not be readable as a copy source
+		isDelMarker, err := p.isObjDeleteMarker(srcBucket, srcObject)
+		if err != nil {
+			return nil, err
+		}
+		if isDelMarker {
+			if srcVersionId != "" {
+				return nil, s3err.GetAPIError(s3err.ErrMethodNotAllowed)
+			}
+			return nil, s3err.GetAPIError(s3err.ErrNoSuchKey)
+		}
 	}
 
 	mdmap := make(map[string]string)
